@@ -51,6 +51,16 @@ def scripted_traces():
     return out
 
 
+def infer_variant():
+    """behavioural classification of the three sites (used only when the translator failed closed)"""
+    probe = Check.__new__(Check)
+    out = {}
+    for key, w in ((K_DIRCOPY, W_DIRCOPY), (K_CFMISSING, W_CFMISSING), (K_CONTENTDIR, W_CONTENTDIR)):
+        run = fv.run_trace(w)
+        out[SITE_OF[key]] = not any(k == key for k, _, _ in Check.judge(probe, run, {}))
+    return out
+
+
 class Check(PropertyCheck):
     id = "C30"
     module = "Props.C30"
@@ -130,15 +140,19 @@ class Check(PropertyCheck):
 
     def correspond(self):
         runs = self.gen_traces()
-        if self.variant is None:
-            return      # translator failed closed: nothing to compare the model variant with
-        terms = [fv.trace_term(self.variant, r) for r in runs]
+        variant = self.variant
+        if variant is None:
+            # translator failed closed: compare with the variant the witnesses exhibit, so that a change of
+            # behaviour still yields concrete mismatching sequences in the report
+            variant = infer_variant()
+        terms = [fv.trace_term(variant, r) for r in runs]
         ok, failing, diags = run_bool_cases("C30", ["Base.Lit", "Model.FileVal"], "", terms, chunk=40)
         detail = "\n".join(diags)
         for i in failing[:5]:
             r = runs[i]
             detail += f"\nmismatch ({r['kind']}): ops={r['ops']!r} codes={r['codes']} error={r['error']}"
-        self.ob("correspondence", f"model (variant {self.variant}) == redun/file.py on {len(terms)} operation sequences: "
+        self.ob("correspondence", f"model (variant {variant}{'' if self.variant else ', inferred from the witnesses'}) "
+                f"== redun/file.py on {len(terms)} operation sequences: "
                 "outcome of every operation, cached and fresh hash of every object after every step "
                 "(equality pattern)", ok and not failing, detail)
         self.mismatch = [runs[i] for i in failing]
@@ -242,9 +256,14 @@ class Check(PropertyCheck):
             for s in run["steps"]:
                 print("  ", s["abstract"], "->", s["code"], "cached", [h and h[:8] for h in s["cached"]],
                       "fresh", [h and h[:8] for h in s["fresh"]])
-            if bad:
-                print("replay: still fails:", bad[0][0], "-", bad[0][1], "at step", bad[0][2])
+            want = (r.get("expect_key") or "").split(":although-the-source")[0]
+            hit = [b for b in bad if b[0] == want] or ([] if want else bad)
+            if hit:
+                print("replay: still fails:", hit[0][0], "-", hit[0][1], "at step", hit[0][2])
                 return 1
+            if bad:
+                print("replay: the recorded violation is gone; other findings on this sequence:", sorted({b[0] for b in bad}))
+                return 0
             print("replay: the property holds on this sequence now")
             return 0
         print("replay: nothing to replay (no failing input was found); broken obligations:",
